@@ -245,7 +245,9 @@ pub fn j_range_fmt(fam: usize, v: [i64; 6], out: &mut Local) {
             // next to a day of year the (month, day) pair is one date and must exist; when a field is given twice or
             // overridden by a name only each field's own range is judged (which pair forms "the date" is not defined)
             let field = mo < 1 || mo > 12 || d < 1 || d > 31;
-            let inv = if v[0] < 2 { field || d > crate::oracle::civil::month_len(2017, mo) } else { field };
+            // (since the repair of D66 a field given twice must agree with itself; a text that CONTAINS an impossible date
+            // in one of its readings - "31 15 02 2017", "02 Mar 31 2017" - must be refused in every case)
+            let inv = field || d > crate::oracle::civil::month_len(2017, mo);
             let (f, text) = match v[0] {
                 0 => ("%Y-%m-%d %j", format!("2017-{mo:02}-{d:02} 060")),
                 1 => ("%j %Y-%m-%d", format!("060 2017-{mo:02}-{d:02}")),
@@ -253,6 +255,18 @@ pub fn j_range_fmt(fam: usize, v: [i64; 6], out: &mut Local) {
                 _ => ("%m %b %d %Y", format!("{mo:02} Mar {d:02} 2017")),
             };
             (f.to_string(), text, inv, false, if mo < 1 || mo > 12 { "month" } else { "day" })
+        }
+        9 => {
+            // v = [format, day of year]: second 60 next to a day of year, with an unused month / day that names a leap second
+            // day: the date that is built (the day of year) has no 23:59:60 unless it is that very day
+            let j = v[1];
+            let (f, text, leap_doy) = match v[0] {
+                0 => ("%Y-%m-%d %j %H:%M:%S", format!("2016-12-31 {j:03} 23:59:60"), 366),
+                1 => ("%Y-%m-%d %j %H:%M:%S", format!("2015-06-30 {j:03} 23:59:60"), 181),
+                2 => ("%d %B %Y %j %H:%M:%S", format!("31 December 2016 {j:03} 23:59:60"), 366),
+                _ => ("%Y-%j %H:%M:%S %b %d", format!("1972-{j:03} 23:59:60 Jun 30"), 182),
+            };
+            (f.to_string(), text, j != leap_doy, false, "second-60-allowed-by-an-unused-date")
         }
         _ => {
             // v = [year, day of year, hour, minute, second]: ordinal date with a time of day (27 April / 31 December are
@@ -272,7 +286,7 @@ pub fn j_range_fmt(fam: usize, v: [i64; 6], out: &mut Local) {
             None => false,
         }
     });
-    let fam_name = ["rfc3339-with-trailing-character", "custom-format-with-trailing-character", "custom-format-with-trailing-character", "rfc3339-offset", "ordinal", "fractional-ordinal", "ordinal-with-time", "sign-in-front-of-a-field", "field-given-twice-or-overridden"][fam.min(8)];
+    let fam_name = ["rfc3339-with-trailing-character", "custom-format-with-trailing-character", "custom-format-with-trailing-character", "rfc3339-offset", "ordinal", "fractional-ordinal", "ordinal-with-time", "sign-in-front-of-a-field", "field-given-twice-or-overridden", "ordinal-with-unused-date"][fam.min(9)];
     match r {
         Ok(acc) => {
             if invalid && acc {
@@ -640,6 +654,11 @@ pub fn run(rep: &mut Report) {
             for d in [0i64, 1, 28, 29, 30, 31, 32, 99] {
                 rf.push((8, [f, mo, d, 0, 0, 0]));
             }
+        }
+    }
+    for f in 0..4i64 {
+        for j in [1i64, 2, 100, 181, 182, 183, 365, 366] {
+            rf.push((9, [f, j, 0, 0, 0, 0]));
         }
     }
     rep.bound("range_through_format_parse", rf.len() as u64);
